@@ -18,6 +18,7 @@ RULE = (
     "plus a fresh-interpreter pass: every class x shared dtype x library in three library orders, and jax arrays as they appear under jit / make_jaxpr. "
     "non-trivial = distinct context with >=2 arrays"
 )
+RULE += " Also: the full text of every rejection that names no dtype compared across library assignments; one name registered twice under every pair of libraries; arrays changed in place between two checks."
 
 
 def relib(c: gen_ctx.Ctx, libs) -> gen_ctx.Ctx:
